@@ -21,6 +21,8 @@ var f32s = []uint32{0, 0x80000000, 0x3f800000, 0x7f800000, 0xff800000, 0x7fc0000
 var f64s = []uint64{0, 0x8000000000000000, 0x3ff0000000000000, 0x7ff0000000000000, 0xfff0000000000000, 0x7ff8000000000001, 1, 0x7fefffffffffffff, 0x3fb999999999999a, 0x3eb0c6f7a0b5ed8d, 0x444b1ae4d6e2ef50, 0x0010000000000000}
 var strsv = []string{"", "a", "hello", "héllo", "日本", "\x00", "\"quote\\", "line\nbreak", " ", "tab\t", "😀", "</script>", " ", "\x7f", "true", "null", "123", "[x]", "a.b", strings.Repeat("x", 130)}
 
+var specials = specialStrings()
+
 // Opts steers the random message generator.
 type Opts struct {
 	MaxDepth  int
@@ -88,6 +90,10 @@ func scalar(c *vh.Ctx, fd protoreflect.FieldDescriptor, o Opts) protoreflect.Val
 		return protoreflect.ValueOfFloat64(math.Float64frombits(b))
 	case protoreflect.StringKind:
 		s := strsv[r.Intn(len(strsv))]
+		if r.Intn(4) == 0 {
+			// control characters, U+2028/2029, quoting and HTML characters, supplementary runes … (strings.go)
+			s = specials[r.Intn(len(specials))]
+		}
 		if o.BadUTF8 && r.Intn(6) == 0 {
 			s += []string{"\xff", "\xc0\x80", "\xed\xa0\x80", "\xe2\x82", "\x80", "\xf4\x90\x80\x80"}[r.Intn(6)]
 		}
